@@ -19,24 +19,20 @@ var c02Dst = []string{"CONFIGURED", "RUNNING", "CONFIGURED", "DEPLOYED"}
 var c02States = []string{"STANDBY", "DEPLOYED", "CONFIGURED", "RUNNING", "ERROR"}
 
 // One ControlEnvironment request through the real RPC handler, for every request type and every state of the
-// environment, with the caller still there or already gone (context cancelled), the task manager answering the task part with an arbitrary verdict (and the GO_ERROR the handler
-// falls back to with another one):
+// environment, with the caller still there or already gone (context cancelled), the task manager answering the task part with an arbitrary verdict, the GO_ERROR the handler
+// falls back to going through or being cancelled by a critical hook of its own (the state is then forced):
 //   - a legal request whose critical task acknowledged: no error, the reply reports the destination state;
 //   - a legal request whose critical task did not acknowledge: the request returns an error, the destination is
 //     not reported, the environment ends in ERROR;
 //   - a request that is not legal in the current state: an error, no task command, the environment ends in ERROR.
+//
 //verif:entry HarnessControlEnvironmentRequest unwind=96 preempt=0 reach=ok,task-failure,illegal stub=encoding/json.Marshal,(github.com/AliceO2Group/Control/core/protos.ControlEnvironmentRequest_Optype).String,github.com/AliceO2Group/Control/common/utils.TimeTrack,github.com/AliceO2Group/Control/common/utils.TimeTrackFunction,(*github.com/AliceO2Group/Control/core.RpcServer).logMethod,(*github.com/AliceO2Group/Control/core.RpcServer).logMethodHandled nosched=github.com/AliceO2Group/Control/core/the.mu
 func HarnessControlEnvironmentRequest() {
 	ev := vrt.IntRange("request", 0, 3)
 	state := c02States[vrt.IntRange("state", 0, len(c02States)-1)]
 	taskFails := vrt.Bool("task.part.fails")
-	goErrorFails := vrt.Bool("go.error.task.part.fails")
-	w := environment.VerifNewAPIWorld(state, func(n int) bool {
-		if n == 0 {
-			return taskFails
-		}
-		return goErrorFails
-	})
+	goErrorFails := vrt.Bool("go.error.is.cancelled.by.its.own.hook")
+	w := environment.VerifNewAPIWorld(state, func(n int) bool { return taskFails }, goErrorFails)
 	srv := &RpcServer{state: &globalState{environments: w.Envs, taskman: w.Taskman}}
 	ctx, cancel := context.WithCancel(context.Background())
 	defer cancel()
